@@ -45,9 +45,10 @@ class BoomServer(aioftp.Server):
 class SlowManager(aioftp.MemoryUserManager):
     """a user manager that awaits (as one backed by a database would) and can fail"""
 
-    def __init__(self, users, delay):
+    def __init__(self, users, delay, logout_after=0):
         super().__init__(users)
         self.delay = delay
+        self.logout_after = logout_after    # seconds awaited AFTER the slot was given back (an audit record being written, say)
 
     async def get_user(self, login):
         await asyncio.sleep(self.delay)
@@ -57,7 +58,10 @@ class SlowManager(aioftp.MemoryUserManager):
 
     async def notify_logout(self, user):
         await asyncio.sleep(self.delay)
-        return await super().notify_logout(user)
+        r = await super().notify_logout(user)
+        if self.logout_after:
+            await asyncio.sleep(self.logout_after)
+        return r
 
 
 def resolve_user(users, login):
@@ -80,7 +84,7 @@ async def scenario(net, hyg, plan):
     users.append(aioftp.User("a", "pa", base_path="/", maximum_connections=plan["ulimits"].get("a")))
     users.append(aioftp.User("b", None, base_path="/", maximum_connections=plan["ulimits"].get("b")))
     w = W.World(net, users=users, tree={"/big.bin": b"B" * 400000, "/small.txt": b"s"} if plan.get("files") else None)
-    um = SlowManager(users, plan["slow_manager"]) if plan.get("slow_manager") else users
+    um = SlowManager(users, plan["slow_manager"], plan.get("logout_after", 0)) if (plan.get("slow_manager") or plan.get("logout_after")) else users
     w.server = BoomServer(um, path_io_factory=w.factory, maximum_connections=smax, idle_timeout=plan.get("idle_timeout"),
                           write_speed_limit=plan.get("write_speed_limit"))
     AC = getattr(aioftp.server, "AvailableConnections", None)
@@ -540,6 +544,15 @@ def gen_cases(tier, seed):
                       "plan": {"seed": seed, "server_limit": 2, "ulimits": {"a": 1, "b": 1}, "anonymous": False, "slow_manager": 0.003,
                                "scripts": [sc + [["cmd", "USER boomuser"]], [["connect"], ["cmd", "USER a"], ["sleep", 0.05], ["quit"]]],
                                "offsets": [0, 0.0031]}})
+    # a user manager that has something to await after it gave the slot back; the session vanishes (or the server closes) at every
+    # event of a re-login
+    for la, sm in ((0.02, 0), (0.02, 0.002)):
+        for relogin in ("USER b", "USER a", "USER nobody"):
+            cases.append({"kind": "enum", "actions": ["rst", "fin", "rst+close"], "who": 0,
+                          "plan": {"seed": seed, "server_limit": 3, "ulimits": {"a": 2, "b": 2}, "anonymous": False, "slow_manager": sm, "logout_after": la,
+                                   "scripts": [[["connect"], ["cmd", "USER b"], ["raw", (relogin + "\r\n").encode().hex(), "noreply"], ["sleep", 0.05], ["quit"]],
+                                               [["connect"], ["cmd", "USER b"], ["sleep", 0.2], ["quit"]]],
+                                   "offsets": [0, 0.0031]}})
     # a re-login (same or other account) while a transfer of the session is still in flight, then the session vanishes
     xfer = [["connect"], ["cmd", "USER a"], ["cmd", "PASS pa"], ["cmd", "TYPE I"], ["pasv"], ["data"],
             ["raw", b"RETR /big.bin\r\n".hex(), "noreply"], ["sleep", 0.02]]
